@@ -279,6 +279,9 @@ def typed_args(info: dict, args: list) -> list:
             out.append(np.float64(fl))       # a float that also supports numpy-style methods (.astype)
         elif ty == "Bool":
             out.append(bool(a))
+        elif ty == "Str":
+            import specs
+            out.append(specs.STR_TABLE[int(a)] if 0 <= int(a) < len(specs.STR_TABLE) else "")
         else:
             raise ValueError(ty)
     return out
